@@ -211,6 +211,15 @@ pub fn generate(g: &mut Gen, thorough: bool) {
             }
         }
     }
+    // stack underflow, empty and partial (fewer elements than the step needs): every tuple NaN, none counted
+    for (def, dir) in [
+        ("noop | stack pop=1", "F"), ("stack push=1 | stack pop=1,2", "F"), ("stack push=1,2 | stack pop=1,2,3", "F"), ("stack push=1 | stack flip=1,2", "F"),
+        ("stack push=1,2 | stack roll=3,1", "F"), ("stack push=1 | stack unroll=2,1", "F"), ("stack push=2,1 | stack pop=1", "I"), ("stack push=1,2,3 | addone | stack pop=1,2", "I"),
+        ("addone | stack push=1 | stack pop=1,2 | addone", "F"), ("push v_1 | pop v_1 v_2", "F"),
+    ] {
+        let pts: Vec<[f64; 4]> = vec![[1.0, 2.0, 3.0, 4.0], [10.0, 20.0, 30.0, 40.0], [-1.5, 0.0, 1e6, 2000.0]];
+        case(g, "default", def, dir, "0123", "", &pts, "ooo", "stack-underflow", true);
+    }
     // pipelines with failing steps: the minimum over the steps
     for (a, b) in [("utm zone=32", "utm zone=32 inv"), ("cart", "cart inv"), ("utm zone=32", "noop"), ("gridshift grids=test.datum", "utm zone=32"), ("laea lat_0=52 lon_0=10 inv", "noop"), ("geodesic inv", "noop")] {
         let pts: Vec<[f64; 4]> = vec![
